@@ -1,24 +1,48 @@
+_C03_EXT = ["default", "noavx2", "purego", "force32bit"]   # public API: dispatch differs in all four
+_C03_INT = ["default", "purego", "force32bit"]             # explicit Generic+Vector calls: noavx2 adds nothing
+
+def _c03(q, t, qs, ts, cfgs=None):
+    d = T(q, t, shards={"quick": qs, "thorough": ts})
+    if cfgs:
+        d["configs"] = cfgs
+    return d
+
 PROPS["C03"] = {
     "title": "Group law and every scalar-multiplication routine give the true group result",
     "level": "exploration",
-    "technique": "property-based testing (rapid) against an independent math/big affine reference; points and sums known by construction",
-    "level_text": "tbd",
-    "level_note": "tbd",
-    "rule": "tbd",
-    "assumptions": ["math/big is correct"],
+    "technique": ("property-based testing (rapid) against an independent math/big affine reference; operands and sums "
+                  "known by construction ([a]B+T_j decomposition), explicit calls of every serial/AVX2 implementation, "
+                  "Straus and Pippenger at every length and window"),
+    "level_text": ("Generated-input search: canonical encodings of the results of Add/Sub/Neg/Sum/MulByCofactor/doubling, Mul, "
+                   "MulBasepoint (stock and freshly built tables), double-base, constant-time and variable-time multiscalar "
+                   "multiplication (Straus, Pippenger w=6/7/8, expanded/precomputed variants) and of the Ristretto wrappers are "
+                   "compared with a math/big affine computation of sum [s_i]P_i, for points [a]B+T_j (identity, torsion, mixed "
+                   "order, arbitrary Z) and all classes of 255-bit scalars (unreduced, kL+e, 2^255-1, window patterns), with term "
+                   "counts 0,1,2,3,8,20,<=64 and 189..192, 499..501, 799..801, on all four arithmetic backends, both through the "
+                   "public API and by calling each Generic/Vector implementation directly. Does not prove absence."),
+    "level_note": ("Trusted: math/big, verifref Edwards/ristretto model (validated against RFC 8032/9496 vectors), the elementary identity "
+                   "[s]([a]B+T_j) = [s*a mod L]B + T_{s*j mod 8} (cross-checked at run time against term-by-term affine sums on a sample "
+                   "of cases; a disagreement aborts with exit 2). Zero-value points are documented invalid and never used; "
+                   "TripleScalarMulBasepointVartime belongs to C16."),
+    "rule": ("rapid-generated cases; points by construction [a]B+T_j (classes identity/torsion/mixed-order/prime-order, small and "
+             "full-size a, negated, duplicated, re-represented with non-trivial Z), scalars from the 255-bit boundary catalogue plus "
+             "repeating w-bit window patterns; non-trivial = some scalar is >= L or from a boundary class, or some operand is the "
+             "identity / a torsion point / of mixed order / stored with Z != 1, or the term count is 0 or at a threshold "
+             "(189..192, 499..501, 799..801); distinct = FNV-64 of the serialised case"),
+    "assumptions": ["math/big is correct", "verifref curve constants and formulas (self-tested against published vectors)"],
     "units": [{
         "pkg": "curve", "configs": {"quick": ALL4, "thorough": ALL4},
         "tests": {
-            "TestC03GroupLaw": T(400, 4000),
-            "TestC03ScalarMul": T(400, 4000),
-            "TestC03MSMSmall": T(400, 4000),
-            "TestC03MSMLarge": T(16, 100),
-            "TestC03Ristretto": T(200, 2000),
-            "TestC03ImplModels": T(200, 2000),
-            "TestC03ImplScalarMul": T(200, 2000),
-            "TestC03ImplMSMSmall": T(200, 2000),
-            "TestC03ImplMSMLarge": T(16, 100),
-            "TestC03ImplRistretto": T(200, 2000),
+            "TestC03GroupLaw":      _c03(1600, 60000, 1, 8),
+            "TestC03ScalarMul":     _c03(1000, 40000, 2, 16),
+            "TestC03MSMSmall":      _c03(1200, 40000, 2, 16),
+            "TestC03MSMLarge":      _c03(40, 1500, 1, 8),
+            "TestC03Ristretto":     _c03(400, 12000, 2, 16),
+            "TestC03ImplModels":    _c03(800, 30000, 1, 8, _C03_INT),
+            "TestC03ImplScalarMul": _c03(800, 30000, 2, 16, _C03_INT),
+            "TestC03ImplMSMSmall":  _c03(500, 16000, 4, 16, _C03_INT),
+            "TestC03ImplMSMLarge":  _c03(40, 1200, 2, 16, _C03_INT),
+            "TestC03ImplRistretto": _c03(400, 12000, 1, 8, _C03_INT),
         },
     }],
 }
